@@ -158,6 +158,21 @@ def f_nested():
         return h()
     return term('nested', g())
 
+def hmod():
+    return term('hmod#%(hmod)d')
+
+def f_nested_scopes():
+    # the names an import binds inside a nested function are not names of the enclosing one; a parameter / a comprehension
+    # variable with the name of an imported module is not the module
+    from %(pkg)s import sub as tool
+    def g():
+        from %(pkg)s.sub import inner as hmod
+        return hmod()
+    def k(tool):
+        return tool.upper()
+    ks = [tool for tool in ('p', 'q')]
+    return term('scopes', g(), hmod(), k('x'), ks, tool.h())
+
 def leaf():
     return term('leaf#%(inner)d')
 
@@ -167,8 +182,8 @@ def f_keep():
 
 def f0():
     return term('f0', dds.keep('/x/a', f_attr), dds.keep('/x/b', f_alias), dds.keep('/x/c', f_fromas), dds.keep('/x/d', f_frompkg),
-                dds.keep('/x/e', f_relative), dds.keep('/x/f', f_nested), dds.keep('/x/g', f_keep))
-""" % s}, ["subv", "inner", "h"]
+                dds.keep('/x/e', f_relative), dds.keep('/x/f', f_nested), dds.keep('/x/g', f_keep), dds.keep('/x/h', f_nested_scopes))
+""" % s}, ["subv", "inner", "h", "hmod"]
 
 
 def T_fun_in_variable(s):
